@@ -90,10 +90,10 @@ def run(index, rep):
     conv = build_conversions(index)
     tabs = tables(index, conv)
     rep.note_analysed("table_sizes", {n: len(t) for n, t in tabs.items()})
-    table_rules(tabs, rep)
-    conv_rules(index, conv, tabs, rep)
-    anchor_rules(conv, tabs, rep)
-    form_rules(index, conv, tabs, rep)
+    rep.guard(table_rules, tabs, rep)
+    rep.guard(conv_rules, index, conv, tabs, rep)
+    rep.guard(anchor_rules, conv, tabs, rep)
+    rep.guard(form_rules, index, conv, tabs, rep)
     rep.trusted_base = [
         "CPython ast module parses the source the interpreter would run",
         "allfedsa.rat exact Fraction-based polynomial arithmetic (identity by cross-multiplication)",
